@@ -12,33 +12,35 @@ ExplainAt == atoi(IOEnv.EXPLAIN)
 TInit ==
     /\ l = 1
     /\ mode = "unchecked"
+    /\ esz = 4
     /\ mk = "heap"
     /\ parent = <<>>
     /\ views = <<>>
     /\ last = [op |-> "Init", a |-> NoArg, res |-> Void]
     /\ pre = [parent |-> <<>>, views |-> <<>>, mk |-> "heap"]
 
-(* a new execution: the mode the driver was built in, empty heap memory, no views *)
+(* a new execution: the mode of the driver's build configuration (SpanMode.tla), the size of its element type, *)
+(* empty heap memory, no views                                                                                *)
 TReset(e) ==
-    /\ e.a.mode \in {"unchecked", "throwing"}
-    /\ mode' = e.a.mode
+    /\ e.a.mode \in AllModes /\ e.a.esz \in 1..64
+    /\ mode' = e.a.mode /\ esz' = e.a.esz
     /\ mk' = "heap" /\ parent' = <<>> /\ views' = <<>>
     /\ pre' = [parent |-> parent, views |-> views, mk |-> mk]
-    /\ last' = [op |-> "Reset", a |-> e.a, res |-> Void]
+    /\ last' = [op |-> "Reset", a |-> [z |-> 0], res |-> Void]
 
 Dispatch(e) == LET a == e.a IN
     \/ e.op = "Reset"         /\ TReset(e)
     \/ e.op = "Mem"           /\ Mem(a.kind, a.cells)
-    \/ e.op = "FromPtrCount"  /\ FromPtrCount(a.po, a.cnt, a.ext)
-    \/ e.op = "FromPtrPair"   /\ FromPtrPair(a.po, a.cnt, a.ext)
-    \/ e.op = "FromArray"     /\ FromArray(a.ext)
-    \/ e.op = "FromStdArray"  /\ FromStdArray(a.ext)
-    \/ e.op = "FromContainer" /\ FromContainer(a.ext)
-    \/ e.op = "MakeSpan"      /\ MakeSpan
-    \/ e.op = "Default"       /\ Default(a.ext)
-    \/ e.op = "ConstFrom"     /\ ConstFrom(a.how, a.s, a.ext)
+    \/ e.op = "FromPtrCount"  /\ FromPtrCount(a.po, a.cnt, a.ext, a.c)
+    \/ e.op = "FromPtrPair"   /\ FromPtrPair(a.po, a.cnt, a.ext, a.c)
+    \/ e.op = "FromArray"     /\ FromArray(a.ext, a.c)
+    \/ e.op = "FromStdArray"  /\ FromStdArray(a.ext, a.c)
+    \/ e.op = "FromContainer" /\ FromContainer(a.ext, a.c)
+    \/ e.op = "MakeSpan"      /\ MakeSpan(a.c)
+    \/ e.op = "Deduce"        /\ Deduce(a.c)
+    \/ e.op = "Default"       /\ Default(a.ext, a.c)
     \/ e.op = "Copy"          /\ Copy(a.s, a.how)
-    \/ e.op = "Convert"       /\ Convert(a.s, a.ext)
+    \/ e.op = "Convert"       /\ Convert(a.s, a.ext, a.c)
     \/ e.op = "First"         /\ First(a.s, a.c)
     \/ e.op = "Last"          /\ Last(a.s, a.c)
     \/ e.op = "Subspan"       /\ Subspan(a.s, a.o, a.c)
@@ -47,6 +49,8 @@ Dispatch(e) == LET a == e.a IN
     \/ e.op = "FirstS"        /\ FirstS(a.s, a.C)
     \/ e.op = "LastS"         /\ LastS(a.s, a.C)
     \/ e.op = "SubspanS"      /\ SubspanS(a.s, a.O, a.C)
+    \/ e.op = "NmS"           /\ NmS(a.fn, a.O, a.C)
+    \/ e.op = "Bind"          /\ Bind(a.s)
     \/ e.op = "Index"         /\ Index(a.s, a.how, a.i)
     \/ e.op = "At"            /\ At(a.s, a.i)
     \/ e.op = "Front"         /\ Front(a.s)
